@@ -1,0 +1,169 @@
+//go:build verif
+
+// Contracts for the acv verifier (/verif). Comment-only file: no executable code.
+
+package filesystem
+
+// ---- key ring: ordering, seqnums, state --------------------------------------------------------------------
+//@ func (r *KeyRing) AllKeys() (seqnums []int, err error)
+//@   props C06 C14
+//@   safety
+//@   loop 0 invariant 0 <= $n && $n <= len(r.data.Keys) && len(keySeqnums) == len(r.data.Keys)
+//@          invariant forall(j, 0, $n, keySeqnums[len(r.data.Keys) - 1 - j] == r.data.Keys[j].Seqnum)
+//@   ensures newest-first: err == nil && len(seqnums) == len(r.data.Keys) && forall(j, 0, len(r.data.Keys), seqnums[len(r.data.Keys) - 1 - j] == r.data.Keys[j].Seqnum)
+//@   ensures fresh(seqnums) || len(seqnums) == 0
+
+//@ func (r *KeyRing) CurrentKey() (seqnum int, err error)
+//@   props C06 C14
+//@   safety
+//@   ensures seqnum == r.data.Current && ((err == nil) <==> (r.data.Current != asn1.NoKey))
+//@   modifies nothing
+
+//@ func (r *KeyRing) nextSeqnum() (n int)
+//@   props C06 C14 C17
+//@   safety
+//@   ensures monotone: len(r.data.Keys) == 0 ==> n == 1
+//@   ensures above-last: len(r.data.Keys) > 0 ==> n == r.data.Keys[len(r.data.Keys)-1].Seqnum + 1
+//@   modifies nothing
+
+//@ func (r *KeyRing) keyDataByFormat(seqnum int, format api.KeyFormat) (d *asn1.KeyData, err error)
+//@   props C06 C14
+//@   noinline keyDataBySeqnum
+//@   ensures destroyed-reported: ret(keyDataBySeqnum)[0] != nil && api.KeyState(ret(keyDataBySeqnum)[0].State) == api.KeyDestroyed ==> err == api.ErrKeyDestroyed && d == nil
+//@   ensures missing-reported: ret(keyDataBySeqnum)[0] == nil ==> err == api.ErrKeyNotExist
+//@   at call keyDataBySeqnum : assert arg[0] == seqnum
+
+//@ func (r *KeyRing) DestroyKey(seqnum int) (err error)
+//@   props C06 C14
+//@   noinline keyDataBySeqnum destroyKey
+//@   ensures only-valid-transition: called(KeyRing.destroyKey) ==> ret(api.KeyStateTransitionValid)[0]
+//@   at call api.KeyStateTransitionValid : assert arg[1] == api.KeyDestroyed && arg[0] == api.KeyState(ret(keyDataBySeqnum)[0].State)
+//@   at call KeyRing.destroyKey : assert arg[0] == seqnum && arg[1] == api.KeyState(ret(keyDataBySeqnum)[0].State)
+
+//@ func (r *KeyRing) SetState(seqnum int, newState api.KeyState) (err error)
+//@   props C06 C14
+//@   noinline keyDataBySeqnum changeKeyState
+//@   ensures only-valid-transition: called(KeyRing.changeKeyState) ==> ret(api.KeyStateTransitionValid)[0]
+//@   at call api.KeyStateTransitionValid : assert arg[1] == newState && arg[0] == api.KeyState(ret(keyDataBySeqnum)[0].State)
+//@   at call KeyRing.changeKeyState : assert arg[0] == seqnum && arg[2] == newState
+
+// ---- in-memory transaction log stays balanced on failure (C08) -------------------------------------------------
+//@ func (r *KeyRing) pushTX(tx keyRingTX)
+//@   props C08
+//@   safety
+//@   ensures len(r.txLog) == old(len(r.txLog)) + 1
+//@   modifies r.txLog, r.txLog[*]
+
+//@ func (r *KeyRing) popTX() (tx keyRingTX)
+//@   props C08
+//@   safety
+//@   ensures old(len(r.txLog)) > 0 ==> len(r.txLog) == old(len(r.txLog)) - 1
+//@   ensures old(len(r.txLog)) == 0 ==> len(r.txLog) == 0
+//@   modifies r.txLog
+
+//@ func (r *KeyRing) setCurrent(newSeqnum int) (err error)
+//@   props C08
+//@   noinline syncKeyRing
+//@   ensures balanced-on-failure: err != nil ==> called(KeyRing.popTX) && err == ret(KeyStore.syncKeyRing)[0]
+//@   ensures kept-on-success: err == nil ==> !called(KeyRing.popTX)
+//@   at call KeyStore.syncKeyRing : assert arg[0] == r && called(KeyRing.pushTX)
+
+//@ func (r *KeyRing) changeKeyState(keySeqnum int, oldState api.KeyState, newState api.KeyState) (err error)
+//@   props C08
+//@   noinline syncKeyRing
+//@   ensures balanced-on-failure: err != nil ==> called(KeyRing.popTX)
+//@   ensures kept-on-success: err == nil ==> !called(KeyRing.popTX)
+//@   at call KeyStore.syncKeyRing : assert arg[0] == r && called(KeyRing.pushTX)
+
+//@ func (r *KeyRing) addKey(newKey *asn1.Key) (err error)
+//@   props C08
+//@   noinline syncKeyRing
+//@   ensures balanced-on-failure: err != nil ==> called(KeyRing.popTX)
+//@   ensures kept-on-success: err == nil ==> !called(KeyRing.popTX)
+//@   at call KeyStore.syncKeyRing : assert arg[0] == r && called(KeyRing.pushTX)
+
+//@ func (r *KeyRing) destroyKey(keySeqnum int, currentState api.KeyState) (err error)
+//@   props C08
+//@   noinline syncKeyRing
+//@   ensures balanced-on-failure: err != nil ==> called(KeyRing.popTX#0) && called(KeyRing.popTX#1)
+//@   ensures kept-on-success: err == nil ==> !called(KeyRing.popTX#0)
+//@   at call KeyStore.syncKeyRing : assert arg[0] == r && called(KeyRing.pushTX#0) && called(KeyRing.pushTX#1)
+
+// ---- the write cycle: lock, re-read, apply, push, commit; rename last (C08, C17) -------------------------------
+//@ func (s *KeyStore) writeKeyRing(ring *KeyRing) (err error)
+//@   props C08 C17
+//@   noinline pullRingUpdates applyPendingTX pushNewRingState commitTX
+//@   ensures unlock-after-lock: called(Backend.Lock) && ret(Backend.Lock)[0] == nil ==> called(Backend.Unlock)
+//@   ensures no-work-without-lock: ret(Backend.Lock)[0] != nil ==> !called(KeyStore.pullRingUpdates) && !called(KeyStore.pushNewRingState) && err != nil
+//@   ensures commit-only-on-success: called(KeyRing.commitTX) ==> ret(KeyStore.pushNewRingState)[0] == nil && ret(KeyRing.applyPendingTX)[0] == nil && ret(KeyStore.pullRingUpdates)[0] == nil
+//@   ensures failure-keeps-log: err != nil && ret(Backend.Lock)[0] == nil && !(ret(KeyStore.pushNewRingState)[0] == nil && called(KeyStore.pushNewRingState)) ==> !called(KeyRing.commitTX)
+//@   at call KeyStore.pullRingUpdates : assert arg[0] == ring && called(Backend.Lock) && ret(Backend.Lock)[0] == nil && !called(Backend.Unlock)
+//@   at call KeyRing.applyPendingTX : assert recv == ring && called(KeyStore.pullRingUpdates) && ret(KeyStore.pullRingUpdates)[0] == nil && !called(Backend.Unlock)
+//@   at call KeyStore.pushNewRingState : assert arg[0] == ring && called(KeyRing.applyPendingTX) && ret(KeyRing.applyPendingTX)[0] == nil && !called(Backend.Unlock)
+//@   at call Backend.Unlock : assert called(Backend.Lock) && ret(Backend.Lock)[0] == nil
+
+//@ func (s *KeyStore) readKeyRing(ring *KeyRing) (err error)
+//@   props C08 C17
+//@   noinline pullRingUpdates
+//@   ensures unlock-after-lock: called(Backend.RLock) && ret(Backend.RLock)[0] == nil ==> called(Backend.RUnlock)
+//@   at call KeyStore.pullRingUpdates : assert arg[0] == ring && called(Backend.RLock) && ret(Backend.RLock)[0] == nil && !called(Backend.RUnlock)
+
+//@ func (s *KeyStore) openKeyRing(ring *KeyRing) (err error)
+//@   props C08 C17
+//@   noinline pullRingUpdates pushNewRingState
+//@   ensures unlock-after-lock: called(Backend.Lock) && ret(Backend.Lock)[0] == nil ==> called(Backend.Unlock)
+//@   at call KeyStore.pullRingUpdates : assert arg[0] == ring && called(Backend.Lock) && ret(Backend.Lock)[0] == nil && !called(Backend.Unlock)
+//@   at call KeyStore.pushNewRingState : assert arg[0] == ring && !called(Backend.Unlock) && ret(KeyStore.pullRingUpdates)[0] == backend.ErrNotExist
+
+//@ func (s *KeyStore) pushASNring(data []byte, path string) (err error)
+//@   props C08 C17
+//@   safety
+//@   ensures rename-last: called(Backend.Rename) ==> ret(Backend.Put)[0] == nil
+//@   ensures failed-put-no-rename: ret(Backend.Put)[0] != nil ==> !called(Backend.Rename) && err != nil
+//@   at call Backend.Put : assert recv == s.fs && arg[0] == path + keyringSuffix + newSuffix && sameslice(arg[1], data)
+//@   at call Backend.Rename : assert recv == s.fs && arg[0] == path + keyringSuffix + newSuffix && arg[1] == path + keyringSuffix
+
+//@ func (s *KeyStore) pushNewRingState(ring *KeyRing) (err error)
+//@   props C07 C08
+//@   noinline signKeyRing pushASNring
+//@   ensures only-signed-data-stored: called(KeyStore.pushASNring) ==> ret(KeyStore.signKeyRing)[2] == nil
+//@   at call KeyStore.signKeyRing : assert arg[0] == ring.data && arg[1] == ring.path
+//@   at call KeyStore.pushASNring : assert sameslice(arg[0], ret(KeyStore.signKeyRing)[0]) && arg[1] == ring.path
+
+//@ func (s *KeyStore) pullRingUpdates(ring *KeyRing) (err error)
+//@   props C07 C08
+//@   noinline fetchASNring verifyKeyRing loadASN1
+//@   ensures verified-before-loaded: called(KeyRing.loadASN1) ==> ret(KeyStore.verifyKeyRing)[2] == nil && ret(KeyStore.fetchASNring)[1] == nil
+//@   at call KeyStore.fetchASNring : assert arg[0] == ring.path
+//@   at call KeyStore.verifyKeyRing : assert sameslice(arg[0], ret(KeyStore.fetchASNring)[0]) && arg[1] == ring.path
+//@   at call KeyRing.loadASN1 : assert recv == ring && arg[0] == ret(KeyStore.verifyKeyRing)[0]
+
+// ---- key material is stored only in encrypted form, bound to ring path, purpose and seqnum (C07) -----------------
+//@ func (r *KeyRing) addKeyData(data api.KeyData, key *asn1.Key) (err error)
+//@   props C07 C14
+//@   noinline encryptPrivateKey encryptSymmetricKey
+//@   loop 0 invariant 0 <= $n && $n <= len(key.Data)
+//@   ensures private-stored-encrypted: err == nil && data.Format == api.ThemisKeyPairFormat && len(data.PrivateKey) != 0 ==> called(KeyRing.encryptPrivateKey) && ret(KeyRing.encryptPrivateKey)[1] == nil && sameslice(key.Data[len(key.Data)-1].PrivateKey, ret(KeyRing.encryptPrivateKey)[0])
+//@   ensures symmetric-stored-encrypted: err == nil && data.Format == api.ThemisSymmetricKeyFormat ==> called(KeyRing.encryptSymmetricKey) && ret(KeyRing.encryptSymmetricKey)[1] == nil && sameslice(key.Data[len(key.Data)-1].SymmetricKey, ret(KeyRing.encryptSymmetricKey)[0])
+//@   ensures nothing-else: err == nil ==> data.Format == api.ThemisKeyPairFormat || data.Format == api.ThemisSymmetricKeyFormat
+//@   at call KeyRing.encryptPrivateKey : assert arg[0] == key.Seqnum && sameslice(arg[1], data.PrivateKey)
+//@   at call KeyRing.encryptSymmetricKey : assert arg[0] == key.Seqnum && sameslice(arg[1], data.SymmetricKey)
+
+//@ func (r *KeyRing) encrypt(data []byte, context []byte) (out []byte, err error)
+//@   props C02 C07
+//@   noinline keyRingContext
+//@   at call KeyStore.encrypt : assert recv == r.store && sameslice(arg[0], data) && sameslice(arg[1], ret(KeyRing.keyRingContext)[0])
+//@   at call KeyRing.keyRingContext : assert sameslice(arg[0], context)
+
+//@ func (r *KeyRing) decrypt(data []byte, context []byte) (out []byte, err error)
+//@   props C02 C07
+//@   noinline keyRingContext
+//@   at call KeyStore.decrypt : assert recv == r.store && sameslice(arg[0], data) && sameslice(arg[1], ret(KeyRing.keyRingContext)[0])
+//@   at call KeyRing.keyRingContext : assert sameslice(arg[0], context)
+
+//@ func (r *KeyRing) keyRingContext(context []byte) (c []byte)
+//@   props C02 C07 C14
+//@   safety
+//@   ensures layout: len(c) == 9 + len(r.path) + 2 + len(context)
+//@   ensures binds-path: forall(i, 0, len(r.path), c[9 + i] == r.path[i])
+//@   ensures binds-context: forall(i, 0, len(context), c[9 + len(r.path) + 2 + i] == context[i])
